@@ -272,3 +272,5 @@ def run(ctx):
     from .. import tstate
     r9x = ctx.rule('C05.R9', 'TSTATE', 'a received RST_STREAM releases the slot from every state: State::recv_reset, read by abstract interpretation over the 15 reference states x {queued, not queued}, leaves no stream in a state Counts::transition_after refuses to release (a reset of our own that is only scheduled) unless it was really closed already')
     tstate.recv_reset_rows(r9x, ctx.facts)
+    from .. import boundaries as _b
+    _b.check_counts(ctx, 'C05.RQ', 'C05')
